@@ -4,8 +4,8 @@ func init() {
 	props["C12"] = &propDef{
 		info: PropInfo{
 			Bounds: []string{
-				"all five arguments symbolic at once: index any int64; zooms and base exponent 0..35; |offset| <= 2^40 (quick) / 2^60 (thorough)",
-				"oracle in 192-bit ghost integers scaled by 2^35 with a no-overflow obligation on every ghost operation",
+				"index any int64, base offset |off| <= 2^40 (quick) / 2^60 (thorough) and one zoom symbolic per query; the source (resp. target) zoom 0..35 and the zoom-minus-exponent difference are case-split (quick: 11 differences in -35..35, thorough: all 71); base exponent = zoom - difference restricted to 0..35",
+				"oracle in exact 128-bit ghost integers scaled by 2^35; no-overflow is shown structurally from declared operand magnitudes (checked) or by an obligation per ghost operation",
 			},
 			Outside: []string{"zooms or base exponents outside 0..35", "offsets beyond the stated magnitude"},
 		},
